@@ -430,7 +430,7 @@ func (g *G) BoolPred(cands xref.NodeSet, depth int) xast.Expr {
 		if g.NonFlatCount && g.chance(5, "nonflatcount") {
 			arg = g.RelPath(cands, 2, 0)
 		} else {
-			arg = g.FlatPath(cands)
+			arg = g.FlatArg(cands) // 3 in 10: the last step filters (count(b/c[contains(@x, 'v')]) > 0)
 		}
 		return &xast.Bin{Op: g.pick(cmpOps, "cop"), L: &xast.Call{Name: "count", Args: []xast.Expr{arg}}, R: &xast.Num{Lit: g.pick(g.NumLits, "nlit")}}
 	case 5:
